@@ -133,11 +133,13 @@ def gen(seed, run, tier='quick'):
                       'clock0': rng.choice(pool).isoformat(),
                       'kind': rng.choice(['none', 'year', 'month', 'month',
                                           'day', 'day'])})
+    n_conv0 = n_conv
     w = {'update': rng.choice([3, 5, 8]), 'get': rng.choice([2, 4]),
          'call': rng.choice([1, 2]), 'implicit': rng.choice([0, 1, 2]),
          'clock': rng.choice([0, 1, 3]),
          'tick': rng.choice([0, 0, 1, 2]),
          'clockfail': rng.choice([0, 0, 1, 1]),
+         'snapshot': rng.choice([0, 0, 1]),
          'clockupdate': rng.choice([0, 0, 1, 1]),
          'bad_validity': rng.choice([0, 1, 2]),
          'datetime_validity': rng.choice([0, 0, 1]),
@@ -301,6 +303,13 @@ def gen(seed, run, tier='quick'):
             ops.append(['tick', rng.choice([1, 1, 2, 3]),
                         some_date().isoformat(), ci])
             ops.append(['get', ci, a, b, None])
+        elif k == 'snapshot':
+            # copy.deepcopy(converter): from now on two independent
+            # converters with the same past
+            if n_conv < 5:
+                ops.append(['snapshot', ci])
+                convs.append(dict(convs[ci]))
+                n_conv += 1
         elif k == 'clockupdate':
             # the configured callable loads rates into the converter before
             # it answers (a service that fetches the day's rates when first
@@ -327,7 +336,7 @@ def gen(seed, run, tier='quick'):
     probe_dates = sorted({d.isoformat()
                           for d in rng.sample(pool, min(5, len(pool)))}
                          | {far.isoformat()})
-    cfg = {'curs': curs, 'convs': convs, 'late': late,
+    cfg = {'curs': curs, 'convs': convs[:n_conv0], 'late': late,
            'clock0': rng.choice(pool).isoformat(),
            'probe_dates': probe_dates}
     return {'cfg': cfg, 'ops': ops}
@@ -990,6 +999,18 @@ def execute(h):
                     bump(faults, 'clock_jump_forward')
                 clock.set(d)
                 out = 'set'
+            elif kind == 'snapshot':
+                ci = op[1] % len(convs)
+                if len(convs) < 6:
+                    import copy
+                    convs.append(copy.deepcopy(convs[ci]))
+                    models.append(copy.deepcopy(models[ci]))
+                    cclk.append(cclk[ci])
+                    cfg['convs'].append(dict(cfg['convs'][ci]))
+                    bump(probes, 'converter_deep_copied')
+                    out = 'copied'
+                else:
+                    out = 'enough'
             elif kind == 'clockupdate':
                 ci = op[1] % len(convs)
                 base = cfg['convs'][ci]['base'] % n_cur
